@@ -715,6 +715,7 @@ func (m *M) callImpl(fn *ssa.Function, args []Value, fv []Value) (ret Value) {
 	}
 	m.st.funcs[fn.String()]++
 	m.depth++
+	m.stack = append(m.stack, fn)
 	if m.depth > maxDepth {
 		panic(engineErr("call depth exceeded in " + fn.String()))
 	}
@@ -730,8 +731,15 @@ func (m *M) callImpl(fn *ssa.Function, args []Value, fv []Value) (ret Value) {
 		if r := recover(); r != nil {
 			gp, ok := r.(goPanic)
 			if !ok {
+				if _, isEE := r.(engineErr); isEE && m.errStack == nil {
+					for _, f := range m.stack {
+						m.errStack = append(m.errStack, f.String())
+					}
+				}
+				m.stack = m.stack[:len(m.stack)-1]
 				panic(r)
 			}
+			m.stack = m.stack[:len(m.stack)-1]
 			if gp.pos == "" {
 				gp.pos = fn.String()
 			}
@@ -748,7 +756,9 @@ func (m *M) callImpl(fn *ssa.Function, args []Value, fv []Value) (ret Value) {
 			}
 		}
 	}()
-	return f.runFrom(fn.Blocks[0])
+	ret = f.runFrom(fn.Blocks[0])
+	m.stack = m.stack[:len(m.stack)-1]
+	return ret
 }
 
 func (f *frame) cover(in ssa.Instruction) {
@@ -778,6 +788,9 @@ func (f *frame) runFrom(b *ssa.BasicBlock) Value {
 			f.visits = map[*ssa.BasicBlock]int{}
 		}
 		f.visits[b]++
+		if inRepo && !m.st.blocks[b] {
+			m.st.blocks[b] = true
+		}
 		if f.visits[b] > loopBound {
 			panic(engineErr(fmt.Sprintf("UNWINDING: loop bound %d exceeded in %s block %d", loopBound, fn, b.Index)))
 		}
@@ -808,9 +821,6 @@ func (f *frame) runFrom(b *ssa.BasicBlock) Value {
 		}
 		for _, in := range b.Instrs[nphi:] {
 			m.steps++
-			if inRepo {
-				f.cover(in)
-			}
 			switch x := in.(type) {
 			case *ssa.Alloc:
 				o := m.newObj(zero(x.Type().(*types.Pointer).Elem()))
@@ -1230,6 +1240,7 @@ func (f *frame) builtin(name string, args []Value, c *ssa.CallCommon, pos token.
 			}
 			switch o := x.obj.v.(type) {
 			case *MapObj:
+				m.materialiseAll(o)
 				return cI(len(o.keys))
 			case *Chan:
 				if name == "cap" {
